@@ -17,6 +17,7 @@ EXTENDS Naturals, Sequences, FiniteSets, TLC
 
 CONSTANTS Kinds,      \* value kinds
           MaxN,       \* members per container
+          BigN,       \* size of the "many small members" container (0 = none)
           Filters,    \* container filters
           HdrSeps,    \* white-space variants between header numbers
           LenStores,  \* how a stream's /Length is stored: "direct", "raw", "cmp"
@@ -39,6 +40,17 @@ Off(j) == IF j = 1 THEN 0 ELSE Off(j - 1) + len[j - 1] + sep[j - 1]
 BodyLen == Off(n) + len[n] + sep[n]
 
 \* the target: a value member, or (for stream cases) the /Length integer of a stream
+\* a container with many small members: its header alone is longer than the compressed stream (the header length /First
+\* is an offset into the DECODED data and must not be compared with anything measured on the stored bytes)
+ChooseMany ==
+  /\ phase = "choose" /\ BigN > 0
+  /\ n' = BigN
+  /\ kinds' = [j \in 1..BigN |-> "null"] /\ len' = [j \in 1..BigN |-> 1] /\ sep' = [j \in 1..BigN |-> 1]
+  /\ idx' \in {1, BigN \div 2, BigN}
+  /\ filter' \in Filters /\ hdrsep' \in HdrSeps /\ lenstore' = "direct"
+  /\ phase' = "slice"
+  /\ UNCHANGED <<start, end, result>>
+
 Choose ==
   /\ phase = "choose"
   /\ \E nn \in 1..MaxN :
@@ -78,7 +90,7 @@ Init ==
   /\ filter \in Filters /\ hdrsep \in HdrSeps /\ lenstore = "direct"
   /\ phase = "choose" /\ start = 0 /\ end = 0 /\ result = "none"
 
-Next == Choose \/ Slice \/ Parse
+Next == Choose \/ ChooseMany \/ Slice \/ Parse
 Spec == Init /\ [][Next]_vars
 
 -----------------------------------------------------------------------------
